@@ -66,6 +66,12 @@ def gen_dhw_building(rng):
         b.add("CONSUMO", id=2, service="ACS", carrier="GASNATURAL", values=gas)
         if mix == "biomass_gas_out":
             b.add("SALIDA", id=1, service="ACS", values=[x * Fraction(3, 4) for x in g])
+            if rng.random() < 0.5:
+                # the same biomass boiler also heats: its heating output must not count as DHW
+                h = v()
+                b.add("CONSUMO", id=1, service="CAL", carrier="BIOMASA", values=h)
+                b.add("SALIDA", id=1, service="CAL", values=[x * Fraction(3, 4) for x in h])
+                b.tags.add("biomass_other_output")
         demand = add(add(demand, g, Fraction(3, 4)), gas, Fraction(7, 8))
     elif mix == "two_biomass":
         g, g2 = v(), v()
@@ -73,6 +79,12 @@ def gen_dhw_building(rng):
         b.add("CONSUMO", id=2, service="ACS", carrier="BIOMASADENSIFICADA", values=g2)
         b.add("SALIDA", id=1, service="ACS", values=[x * Fraction(3, 4) for x in g])
         b.add("SALIDA", id=2, service="ACS", values=[x * Fraction(3, 4) for x in g2])
+        if rng.random() < 0.5:
+            h = v()
+            i = rng.choice([1, 2])
+            b.add("CONSUMO", id=i, service="CAL", carrier="BIOMASA" if i == 1 else "BIOMASADENSIFICADA", values=h)
+            b.add("SALIDA", id=i, service="CAL", values=[x * Fraction(3, 4) for x in h])
+            b.tags.add("biomass_other_output")
         demand = add(add(demand, g, Fraction(3, 4)), g2, Fraction(3, 4))
     elif mix == "cogen_biomass":
         e = v()
@@ -266,6 +278,15 @@ def closed_form(b, ep):
     if b.mix == "biomass_alone":
         cr = "BIOMASA" if use("BIOMASA") > 0 else "BIOMASADENSIFICADA"
         return FR[cr]
+    if b.mix in ("biomass_gas_out", "two_biomass"):
+        # the DHW output declared for each biomass system, weighted by the renewable share of its fuel
+        tot = Fraction(0)
+        for k, kw in b.lines:
+            if k == "SALIDA" and kw["service"] == "ACS":
+                crs = {kw2["carrier"] for k2, kw2 in b.lines if k2 == "CONSUMO" and kw2["id"] == kw["id"] and kw2["service"] == "ACS"}
+                if crs <= {"BIOMASA", "BIOMASADENSIFICADA"} and len(crs) == 1:
+                    tot += sum(Fraction(x) for x in kw["values"]) * FR[crs.pop()]
+        return tot / demand
     if b.mix == "heat_pump":
         excl = any("EXCLUYE_SCOP" in kw.get("comment", "") for k, kw in b.lines if k == "CONSUMO")
         return Fraction(0) if excl else use("EAMBIENTE") / demand
